@@ -76,21 +76,24 @@ def run(P: Program, rep: Report):
                     it = driver_interp(P, ctx, "middlewares.sorting_blocks")
                     m = P.module("model")
                     objs = []
+                    # line numbers that do not grow with the position in the library (blocks of two files merged, blocks moved
+                    # after parsing): ties are broken by library order, never by the recorded line
+                    line_of = lambda i: (7 * i + 5) % 11 if si % 2 == 0 else None if i % 3 == 0 else 20 - i
                     for i, lab in enumerate(seq):
                         if lab.startswith("-"):
                             continue
                         c, key = UNIVERSE[lab]
                         tag = f"{lab}#{i}"
                         if c == "Entry":
-                            o = new_obj(it, P, "model", c, entry_type="t", key=key, fields=AList([]), start_line=i, raw=tag)
+                            o = new_obj(it, P, "model", c, entry_type="t", key=key, fields=AList([]), start_line=line_of(i), raw=tag)
                         elif c == "String":
-                            o = new_obj(it, P, "model", c, key=key, value=tag, start_line=i, raw=tag)
+                            o = new_obj(it, P, "model", c, key=key, value=tag, start_line=line_of(i), raw=tag)
                         elif c == "Preamble":
-                            o = new_obj(it, P, "model", c, value=tag, start_line=i, raw=tag)
+                            o = new_obj(it, P, "model", c, value=tag, start_line=line_of(i), raw=tag)
                         elif c == "ParsingFailedBlock":
-                            o = new_obj(it, P, "model", c, error=ExcVal("Exception", ["x"]), start_line=i, raw=tag)
+                            o = new_obj(it, P, "model", c, error=ExcVal("Exception", ["x"]), start_line=line_of(i), raw=tag)
                         else:
-                            o = new_obj(it, P, "model", c, comment=tag, start_line=i, raw=tag)
+                            o = new_obj(it, P, "model", c, comment=tag, start_line=line_of(i), raw=tag)
                         objs.append(o)
                     lib = new_obj(it, P, "library", "Library")
                     call(it, lib, "add", AList(objs))
